@@ -174,7 +174,15 @@ func (l AbstractListSchema[ItemType]) ValidateCompatibility(typeOrData any) erro
 				itemsValueField.Interface()),
 		}
 	}
-	// Note: Not currently bothering with validating min and max fields
+	// Validate that the size ranges can overlap
+	otherMin, _ := listSchemaField.FieldByName("MinValue").Interface().(*int64)
+	otherMax, _ := listSchemaField.FieldByName("MaxValue").Interface().(*int64)
+	if (l.MaxValue != nil && otherMin != nil && *otherMin > *l.MaxValue) ||
+		(l.MinValue != nil && otherMax != nil && *otherMax < *l.MinValue) {
+		return &ConstraintError{
+			Message: "mutually exclusive min/max list size between list schemas",
+		}
+	}
 	// Validate the list sub-type
 	return l.ItemsValue.ValidateCompatibility(itemType)
 }
